@@ -73,7 +73,8 @@ LambdaLastOK(rt) == \A id \in LambdaIds(rt) :
 LambdaCleaned(s) == NewWls(s) = {} /\ NewContainers(s) = {}
 
 \* C13 after the deployment returned: no marker of the application, counts = recorded
-NoMarkers(s) == \A i \in 1..Len(s.proc) : s.proc[i].app # hdr.scenario.op.app
+\* (markers that were already there before the call belong to an earlier deployment of a history)
+NoMarkers(s) == \A i \in 1..Len(s.proc) : s.proc[i].app = hdr.scenario.op.app => \E j \in 1..Len(pre.proc) : pre.proc[j].ident = s.proc[i].ident
 
 \* C14: after crash + recovery
 RecoveredOK(s) ==
